@@ -45,7 +45,8 @@ def gen(rng, adversarial=False):
     for _ in range(int(rng.integers(0, 4))):
         ij = rng.integers(-4, 5, 2)
         pos = np.vstack([pos, zero + ij @ np.array([a, b])])
-        w = np.append(w, rng.uniform(0, mw * 0.99))
+        # a NaN elevation (flat correlation map) is not >= min_weight: it must be dropped like any weak peak
+        w = np.append(w, rng.uniform(0, mw * 0.99) if rng.random() < 0.7 else np.nan)
         kinds.append('weak')
         true_idx.append(None)
     perm = rng.permutation(len(pos))
@@ -67,6 +68,8 @@ def gen_cloud(rng):
     n = int(rng.integers(3, 14))
     pos = rng.uniform(0, 120, size=(n, 2))
     w = rng.uniform(0, 2, n)
+    if rng.random() < 0.25:
+        w[rng.random(n) < 0.3] = np.nan
     la, lb = rng.uniform(15, 40, 2)
     ang = rng.uniform(0, 2 * np.pi)
     d = np.deg2rad(rng.uniform(50, 130))
@@ -89,7 +92,7 @@ def wellformed_failure(c):
         return 'valid match with %d < min_match=%d selected peaks' % (int(m.selector.sum()), c['mm'])
     if len(m.indices) != int(m.selector.sum()):
         return 'valid match with %d indices but %d selected peaks' % (len(m.indices), int(m.selector.sum()))
-    if (c['w'][m.selector] < c['mw']).any():
+    if not (c['w'][m.selector] >= c['mw']).all():
         return 'a selected peak has elevation below min_weight'
     return None
 
@@ -115,7 +118,7 @@ def stmt_failure(c):
         return 'valid match with %d indices but %d selected peaks' % (len(m.indices), int(m.selector.sum()))
     if int(m.selector.sum()) < c['mm']:
         return 'valid match with %d < min_match=%d selected peaks' % (int(m.selector.sum()), c['mm'])
-    if (c['w'][m.selector] < c['mw']).any():
+    if not (c['w'][m.selector] >= c['mw']).all():
         return 'a selected peak has elevation below min_weight'
     sel = [k for k in range(len(c['pos'])) if m.selector[k]]
     for k, kind in enumerate(c['kinds']):
@@ -208,8 +211,9 @@ def run(ctx):
             c['kinds'], c['true_idx'] = c['kinds'][:14], c['true_idx'][:14]
         if k % 5 == 4:
             c['mm'] = int(sum(1 for q in c['kinds'] if q == 'inlier') + rng.integers(0, 2))    # around the min_match threshold
-        pk = '[' + '; '.join('Build_peak %s %s' % (cq(F(w)), qv(p)) for w, p in zip(c['w'], c['pos'])) + ']'
-        exprs.append('match fastmatch %s %s %d %s %s %s %s with Valid m z a b => (1, mout m, vl z, vl a, vl b) | Invalid r => (0 - r, [], vl vzero, vl vzero, vl vzero) end'
+        pk = '[' + '; '.join('(%s, %s)' % ('ENaN' if np.isnan(w) else 'EVal ' + cq(F(w)), qv(p)) for w, p in zip(c['w'], c['pos'])) + ']'
+        ctx.hist('NaN elevations', int(np.isnan(c['w']).sum()))
+        exprs.append('match fastmatch_f %s %s %d %s %s %s %s with Valid m z a b => (1, mout m, vl z, vl a, vl b) | Invalid r => (0 - r, [], vl vzero, vl vzero, vl vzero) end'
                      % (cq(F(c['tol']) ** 2), cq(F(c['mw'])), c['mm'], qv(c['start'][0]), qv(c['start'][1]), qv(c['start'][2]), pk))
         meta.append(c)
         ctx.hist('points', len(c['pos']))
@@ -279,7 +283,7 @@ def run(ctx):
             ctx.violation('input', 'fastmatch raised %s' % type(e).__name__, mk_replay(c, 'raised'))
             break
         ctx.count(1)
-        if not m.isnan() and (int(m.selector.sum()) < c['mm'] or len(m.indices) != int(m.selector.sum()) or (c['w'][m.selector] < c['mw']).any()):
+        if not m.isnan() and (int(m.selector.sum()) < c['mm'] or len(m.indices) != int(m.selector.sum()) or not (c['w'][m.selector] >= c['mw']).all()):
             fail = 'valid match with %d < min_match=%d selected peaks' % (int(m.selector.sum()), c['mm'])
             ctx.violation('input', fail, mk_replay(c, fail), signature='fastmatch: valid match with fewer than min_match points')
             break
@@ -305,5 +309,5 @@ def run(ctx):
                     'those peaks; a peak on a lattice position is matched with its true index for every tolerance > 0; a peak half a cell off is rejected for '
                     'tolerance^2 <= |a|^2/(4 max(1,|i|)); parallel/zero vectors give Invalid; matching is translation invariant. Tie: the whole two-round '
                     'fastmatch in exact rationals vs Matcher.fastmatch on the same floats (selection, indices, lattice, validity).',
-        rule='lattices |a|,|b| 20..40 px at 60..120 degrees, 4..25 inliers of rank 3 with noise <= 0.3 px, 0..6 half-cell outliers, 0..3 weak peaks, permuted, start '
+        rule='lattices |a|,|b| 20..40 px at 60..120 degrees, 4..25 inliers of rank 3 with noise <= 0.3 px, 0..6 half-cell outliers, 0..3 weak peaks (30 % of them with NaN elevation), permuted, start '
              'perturbed by 0.7 px / 0.14 px, tolerances, min_match (also at the threshold); adversarial stream (empty, parallel, zero, NaN, inf, duplicates, collinear, zero weights).')
